@@ -565,6 +565,42 @@ let codec_spec (rest : string) : string =
   | Some v -> let b = Buffer.create 64 in Buffer.add_string b "OK "; print_value b v; Buffer.contents b
   | None -> "INVALID"
 
+(* ---------- lifel: sender link lifecycle (C13) ---------- *)
+let lifel (rest : string) : string =
+  let evs = split_on rest ';' in
+  let buf = Buffer.create 256 in
+  let err_str = function
+    | LinkLife.RRemoteDetached -> "LinkStateError(RemoteDetached)" | LinkLife.RRemoteClosed -> "LinkStateError(RemoteClosed)"
+    | LinkLife.RRemoteClosedWithError -> "LinkStateError(RemoteClosedWithError(Error))"
+    | LinkLife.RDetachedByRemote -> "DetachedByRemote" | LinkLife.RClosedByRemote -> "ClosedByRemote"
+    | LinkLife.RExpectImmediateDetach -> "LinkStateError(ExpectImmediateDetach)" in
+  let derr_str = function
+    | LinkLife.RRemoteClosedWithError -> "RemoteClosedWithError(Error)" | e -> err_str e in
+  let sent = ref 0 in
+  let s = Stdlib.List.fold_left (fun s e ->
+    let ev = match words e with
+      | ["pa"] -> LinkLife.VPAttach | ["pflow"] -> LinkLife.VPFlow | ["pacc"] -> LinkLife.VPAccept
+      | ["pd"] -> LinkLife.VPDetach LinkLife.KDetach | ["pdc"] -> LinkLife.VPDetach LinkLife.KClose | ["pde"] -> LinkLife.VPDetach LinkLife.KCloseErr
+      | ["send"] -> LinkLife.VSend | ["det"] -> LinkLife.VDetach | ["cls"] -> LinkLife.VClose
+      | ["dropl"] -> LinkLife.VDrop | ["abortl"] -> LinkLife.VAbort
+      | _ -> failwith ("lifel: bad event " ^ e) in
+    let (s', o) = LinkLife.lkstep s ev in
+    let wire = Stdlib.List.filter_map (function
+      | LinkLife.XTransfer -> let k = !sent in incr sent; Some (Printf.sprintf "T0h0d%dp10" k) | LinkLife.XDetach false -> Some "D0h0" | LinkLife.XDetach true -> Some "D0h0c"
+      | LinkLife.XAttach -> Some "A0h0s" | _ -> None) o in
+    let api = Stdlib.List.filter_map (function
+      | LinkLife.DAttach -> Some "att=ok"
+      | LinkLife.DSend None -> Some "send=Accepted(Accepted)" | LinkLife.DSend (Some e) -> Some ("send=err:" ^ err_str e)
+      | LinkLife.DDetach None -> Some "det=ok" | LinkLife.DDetach (Some e) -> Some ("det=err:" ^ derr_str e)
+      | LinkLife.DClose None -> Some "cls=ok" | LinkLife.DClose (Some e) -> Some ("cls=err:" ^ derr_str e)
+      | _ -> None) o in
+    Buffer.add_string buf (Stdlib.String.concat " " ([Stdlib.String.concat "," wire] @ api)); Buffer.add_string buf " ; "; s') LinkLife.LAttSent evs in
+  let fin = match s with
+    | LinkLife.LAttSent -> "att=PENDING"
+    | LinkLife.LSendBlocked | LinkLife.LSendWait _ | LinkLife.LDetSent | LinkLife.LClsSent | LinkLife.LReattach -> "link=PENDING sess=running"
+    | _ -> "sess=running" in
+  Buffer.add_string buf ("# " ^ fin ^ " conn=open"); Buffer.contents buf
+
 let dispatch (line : string) : string =
   match Stdlib.String.index_opt line ' ' with
   | None -> failwith "no model tag"
@@ -579,6 +615,7 @@ let dispatch (line : string) : string =
        | "c17" -> c17 rest
        | "rx" -> rx rest
        | "lifem" -> lifem rest
+       | "lifel" -> lifel rest
        | "saslm" -> saslm rest
        | "ssplit" -> ssplit rest
        | "lnk" -> c11_lnk rest
